@@ -6,7 +6,7 @@ new-moon day numbers `hs` and term day numbers `jq`, both as Julian Day integers
 Tables (`YMC`, `LEAP_11`, `LEAP_12`) and the reform constants come from `Gen.Tables`, i.e. from
 the current source.
 -/
-import Model.Astro
+import Model.MonthTable
 import Gen.Tables
 namespace Model
 open Gen.Tables
@@ -74,63 +74,6 @@ def labelLoop (hs : List Int) (leapIndex : Int) : Nat → Int → LabelSt → Li
 /-- the 15-month table `compute` builds for lunar year `year` from the oracle day numbers -/
 def computeMonths (year : Int) (hs jq : List Int) : List MonthRec :=
   labelLoop hs (leapIndexOf year hs jq) 15 0 { fm := -1, index := -1, y := year - 1 }
-
-/-! ### LunarYear accessors over a month table -/
-
-/-- `LunarYear.GetMonth(m)` -/
-def findMonth (months : List MonthRec) (year m : Int) : Option MonthRec :=
-  months.find? (fun r => r.year == year && r.month == m)
-
-/-- `LunarYear.GetMonthsInYear` -/
-def monthsInYear (months : List MonthRec) (year : Int) : List MonthRec :=
-  months.filter (fun r => r.year == year)
-
-/-- `LunarYear.GetDayCount` -/
-def yearDayCount (months : List MonthRec) (year : Int) : Int :=
-  (monthsInYear months year).foldl (fun a r => a + r.dayCount) 0
-
-/-- `LunarYear.GetLeapMonth` -/
-def leapMonthOf (months : List MonthRec) (year : Int) : Int :=
-  match months.find? (fun r => r.year == year && decide (r.month < 0)) with
-  | some r => -r.month
-  | none => 0
-
-/-- position of (year, month) in a table — the inner search loops of `LunarMonth.Next`
-(`index` keeps its previous value, initially 0, when nothing matches) -/
-def indexIn (months : List MonthRec) (iy im : Int) (dflt : Nat) : Nat :=
-  match months.findIdx? (fun r => r.year == iy && r.month == im) with
-  | some i => i
-  | none => dflt
-
-/-- `LunarMonth.Next(n)` for n > 0: loop state (rest, ny, iy, im, index); fuel bounds the walk. -/
-def nextFwd (A : Astro) : Nat → Int → Int → Int → Int → Nat → Option MonthRec
-  | 0, _, _, _, _, _ => none
-  | fuel + 1, rest, ny, iy, im, index =>
-    let months := (A ny).months
-    let index := indexIn months iy im index
-    let more : Int := (months.length : Int) - index - 1
-    if rest < more then months[(index + rest.toNat)]?
-    else
-      match months.getLast? with
-      | none => none
-      | some last => nextFwd A fuel (rest - more) (ny + 1) last.year last.month index
-
-def nextBwd (A : Astro) : Nat → Int → Int → Int → Int → Nat → Option MonthRec
-  | 0, _, _, _, _, _ => none
-  | fuel + 1, rest, ny, iy, im, index =>
-    let months := (A ny).months
-    let index := indexIn months iy im index
-    if rest ≤ index then months[(index - rest.toNat)]?
-    else
-      match months.head? with
-      | none => none
-      | some first => nextBwd A fuel (rest - index) (ny - 1) first.year first.month index
-
-/-- `LunarMonth.Next(n)`; `none` = Go returns nil -/
-def monthNext (A : Astro) (year month n : Int) : Option MonthRec :=
-  if n = 0 then findMonth (A year).months year month
-  else if n > 0 then nextFwd A (n.toNat + 2) n year year month 0
-  else nextBwd A (n.natAbs + 2) (-n) year year month 0
 
 /-- `LunarMonth.zhiIndex = (index - 1 + BASE_MONTH_ZHI_INDEX) % 12` -/
 def MonthRec.zhiIndex (r : MonthRec) : Int := (r.index - 1 + LunarUtil.BASE_MONTH_ZHI_INDEX) % 12
